@@ -11,7 +11,7 @@ from libertem_blobfinder.common import gridmatching as grm
 PROP = "C05"
 LEAN_MODULE = "BlobfinderModel.Properties.C05"
 GEN_FILES = ["Lattice"]
-FRAGMENTS = ["fastmatch", "optimize", "calc_coords"]
+FRAGMENTS = ["fastmatch", "optimize", "calc_coords", "containers_text"]
 DRIVER = "drvlattice"
 RULE = ("correspondence: Matcher.fastmatch on structured lattices (|a|,|b| 20..40 px, 60..120 deg, rank-3 index subsets, "
         "noise <= 0.3 px, outliers, weak peaks, permutations, perturbed start, tolerances, min_match) vs the exact "
